@@ -115,3 +115,32 @@ def imap_unordered(fn, jobs, procs=15, chunk=1, retries=1):
             retry.append([i])
         else:
           raise WorkerDied('worker died twice (exit code %s) on job %r' % (p.exitcode, jobs[idxs[0]] if len(repr(jobs[idxs[0]])) < 300 else idxs[0]))
+
+
+def start_background(fn, args=()):
+  """Runs fn(*args) in a forked child started from the CALLING thread (never fork from a helper thread: the child may inherit a lock
+  held by another thread); collect with finish_background."""
+  d = tempfile.mkdtemp(prefix='pvbg', dir=os.path.join(os.environ.get('VERIF_HOME', '/verif'), 'build'))
+  mpath, opath = os.path.join(d, 'marker'), os.path.join(d, 'out')
+  p = mp.get_context('fork').Process(target=_child, args=(fn, args, mpath, opath))
+  p.start()
+  return p, d, mpath, opath
+
+
+def finish_background(handle, timeout=None):
+  p, d, mpath, opath = handle
+  p.join(timeout)
+  try:
+    if p.is_alive():
+      p.kill()
+      p.join()
+      raise Crashed('background job', 'timeout')
+    if p.exitcode != 0 or not os.path.exists(opath):
+      raise Crashed(open(mpath).read() if os.path.exists(mpath) else 'background job', p.exitcode)
+    with open(opath, 'rb') as f:
+      return pickle.load(f)
+  finally:
+    for x in (mpath, opath):
+      if os.path.exists(x):
+        os.unlink(x)
+    os.rmdir(d)
